@@ -329,7 +329,8 @@ const DNS_HOST: FuncDef = func!(
     ) -> PktGen
     |mut args| {
         let client: Ipv4Addr = args.next().into();
-        let qname: DnsName = DnsName::from(args.next().as_ref());
+        let qname: Buf = args.next().into();
+        let qname: DnsName = DnsName::from(qname.as_ref());
         let ttl: u32 = args.next().into();
         let ns: Ipv4Addr = args.next().into();
         let raw: bool = args.next().into();
